@@ -377,7 +377,9 @@ class Kernel:
         self.self_pid = 4242
         self.statvfs_map = {}
         self.noexec = set()  # regular files without the x bit
-        self.kills = []  # delivered signals (pid, sig)
+        self.kills = []  # delivered signals (pid, sig, incarnation)
+        self.kill_attempts = []  # every kill() call (pid, sig)
+        self.group_signals = []  # kill() calls with pid <= 0
         self.setcalls = []  # delivered setters
         self.sleeps = []
         self.timer_reads = []
@@ -538,6 +540,22 @@ class Kernel:
                 return self.default_proc_stat()
             raise oserr(errno.ENOENT, path) from None
         return node
+
+    def add_default_sysfiles(self):
+        """A plausible minimal set of system files so that as_dict() and
+        process_iter(attrs=[]) can run."""
+        hdr = b"  sl  local_address rem_address   st tx_queue rx_queue tr tm->when retrnsmt   uid  timeout inode\n"
+        for name in ("tcp", "tcp6", "udp", "udp6"):
+            self.files.setdefault("/proc/net/" + name, hdr)
+        self.files.setdefault("/proc/net/unix", b"Num       RefCount Protocol Flags    Type St Inode Path\n")
+        self.files.setdefault("/proc/net", DIR)
+        self.files.setdefault("/proc/meminfo", (
+            b"MemTotal:        8000000 kB\nMemFree:         4000000 kB\n"
+            b"MemAvailable:    6000000 kB\nBuffers:          100000 kB\n"
+            b"Cached:          1000000 kB\nShmem:             10000 kB\n"
+            b"Active:          2000000 kB\nInactive:        1000000 kB\n"
+            b"SReclaimable:     100000 kB\nSlab:             200000 kB\n"
+            b"SwapTotal:             0 kB\nSwapFree:              0 kB\n"))
 
     def default_proc_stat(self):
         n = self.ncpus or 1
@@ -1020,11 +1038,13 @@ class SimOS:
             raise TypeError("an integer is required")
         if not -2**31 <= pid < 2**31:
             raise OverflowError("signed integer is greater than maximum")
-        if sig != 0:
-            k.kills.append((pid, sig))
+        k.kill_attempts.append((pid, sig))
         if pid <= 0:
             # process group semantics: recorded, nothing else
+            k.group_signals.append((pid, sig))
             return None
+        if not 0 <= sig <= 64:
+            raise oserr(errno.EINVAL)
         p = k.procs.get(pid)
         if p is None:
             p, _t = k._lookup_thread(pid)
@@ -1032,8 +1052,8 @@ class SimOS:
             raise oserr(errno.ESRCH)
         if "kill" in p.unreadable:
             raise oserr(errno.EPERM)
-        if not 0 <= sig <= 64:
-            raise oserr(errno.EINVAL)
+        if sig != 0:
+            k.kills.append((pid, sig, p.inc))  # delivered
         return None
 
     def waitpid(self, pid, options):
@@ -1160,7 +1180,7 @@ class SimResource:
             if "prlimit" in p.unreadable:
                 raise oserr(errno.EPERM)
             soft, hard = limits
-            k.setcalls.append(("prlimit", pid, res, (soft, hard)))
+            k.setcalls.append(("prlimit", pid, res, (soft, hard), p.inc))
             if p.zombie:
                 pass
             p.rlimits[res] = (soft, hard)
@@ -1195,7 +1215,7 @@ class SimCext:
         k = self._k
         k._access("setpriority", None, pid, value=value)
         p = self._proc(pid, "setpriority")
-        k.setcalls.append(("setpriority", pid, value))
+        k.setcalls.append(("setpriority", pid, value, p.inc))
         p.nice = max(-20, min(19, value))
 
     def getpagesize(self):
@@ -1210,7 +1230,7 @@ class SimCext:
         k = self._k
         k._access("ioprio_set", None, pid, ioclass=ioclass, data=data)
         p = self._proc(pid, "ioprio_set")
-        k.setcalls.append(("ioprio_set", pid, int(ioclass), data))
+        k.setcalls.append(("ioprio_set", pid, int(ioclass), data, p.inc))
         p.ioprio = (int(ioclass), data)
 
     def proc_cpu_affinity_get(self, pid):
@@ -1224,15 +1244,17 @@ class SimCext:
         k = self._k
         k._access("sched_setaffinity", None, pid, cpus=list(cpus))
         p = self._proc(pid, "sched_setaffinity")
-        k.setcalls.append(("sched_setaffinity", pid, tuple(cpus)))
         for c in cpus:
             if not isinstance(c, int):
                 raise TypeError("sequence of integers expected")
             if c < 0:
                 raise ValueError("invalid CPU value")
+            if c > 2**31 - 1:
+                raise OverflowError("Python int too large to convert to C long")
         eff = set(cpus) & set(range(k.ncpus))
         if not eff:
             raise oserr(errno.EINVAL)
+        k.setcalls.append(("sched_setaffinity", pid, tuple(cpus), p.inc))
         p.affinity = eff
 
     def disk_partitions(self, path):
